@@ -135,8 +135,9 @@ void run_gesvd(Input const& in, Ctx& ctx) {
 	Dec d{in};
 	long const m = d.size(), n = d.size();
 	unsigned const pad = d.u8() % 4U, padu = d.u8() % 4U, padv = d.u8() % 4U; unsigned seed = d.u8();
-	bool const functional = (d.u8() & 1U) != 0;
-	ctx.desc << "gesvd " << m << 'x' << n << " padA=" << pad << " padU=" << padu << " padVT=" << padv << (functional ? " gesvd(A) -> tuple" : " gesvd(A, U, s, VT)");
+	unsigned const fb = d.u8(); bool const functional = (fb & 1U) != 0; unsigned const argkind = (fb >> 1U) % 3U;  // const array / named mutable array / temporary
+	static char const* const ak[] = {"const array", "mutable lvalue array", "temporary array"};
+	ctx.desc << "gesvd " << m << 'x' << n << " padA=" << pad << " padU=" << padu << " padVT=" << padv << (functional ? " gesvd(A) -> tuple, A a " : " gesvd(A, U, s, VT)") << (functional ? ak[argkind] : "");
 	Block A(m, n, pad), U(m, m, padu), VT(n, n, padv);
 	std::vector<double> A0(static_cast<std::size_t>(m*n));
 	for(long i = 0; i < m; ++i) { for(long j = 0; j < n; ++j) { A.at(i, j) = A0[static_cast<std::size_t>(i*n + j)] = d.small(seed) + (i == j ? 4.0 : 0.0); } }
@@ -145,7 +146,10 @@ void run_gesvd(Input const& in, Ctx& ctx) {
 	auto getU = [&](long i, long j) { return U.at(i, j); }; auto getV = [&](long i, long j) { return VT.at(i, j); };
 	if(functional) {
 		multi::array<double, 2> const Aarr{A.view()};  // the functional form copies its argument with `auto copy = AA`, which needs an owning array
-		auto const [UU, ss, VV] = multi::lapack::gesvd(Aarr);
+		multi::array<double, 2> Amut{A.view()};
+		// the one-argument form returns the factors of a *copy*: whatever the value category of the argument, a named argument keeps its contents
+		auto const [UU, ss, VV] = argkind == 0 ? multi::lapack::gesvd(Aarr) : argkind == 1 ? multi::lapack::gesvd(Amut) : multi::lapack::gesvd(multi::array<double, 2>{A.view()});
+		for(long i = 0; i < m; ++i) { for(long j = 0; j < n; ++j) { VP_CHECK(Amut[i][j] == A0[static_cast<std::size_t>(i*n + j)], "lapack/gesvd_input_modified", "gesvd(A) modified its (named, non-const) argument at (" << i << ',' << j << ")"); } }
 		for(long i = 0; i < m; ++i) { for(long j = 0; j < n; ++j) { VP_CHECK(Aarr[i][j] == A0[static_cast<std::size_t>(i*n + j)], "lapack/gesvd_input_modified", "gesvd(A) modified its const input"); } }
 		for(long i = 0; i < m; ++i) { for(long j = 0; j < n; ++j) { VP_CHECK(A.at(i, j) == A0[static_cast<std::size_t>(i*n + j)], "lapack/gesvd_input_modified", "gesvd(A) modified its const input"); } }
 		VP_CHECK(UU.size() == m && VV.size() == n && ss.size() == k, "lapack/gesvd_shapes", "result shapes");
